@@ -76,7 +76,15 @@ class VFS:
         if n not in self.tree[d][1]:
             self.tree[d] = (self.tree[d][0], list(self.tree[d][1]) + [n])
         store = self.bytes if isinstance(data, bytes) else self.texts
-        old = store.get(a, "" if isinstance(data, str) else b"") if "a" in mode else ("" if isinstance(data, str) else b"")
+        empty = "" if isinstance(data, str) else b""
+        if "+" in mode and "w" not in mode and "a" not in mode:
+            # written over the existing content from position `pos` on, without truncation (os.open without O_TRUNC, mode 'r+')
+            cur = store.get(a, empty)
+            pos = int(mode.split("@")[1]) if "@" in mode else 0
+            store[a] = cur[:pos] + data + cur[pos + len(data):]
+            self._ops().append(("overwrite", a, pos, data))
+            return
+        old = store.get(a, empty) if "a" in mode else empty
         store[a] = old + data
         self._ops().append(("write", a, mode, data))
 
@@ -279,6 +287,10 @@ def fs_hook(vfs: VFS):
                 data = args[0] if f[2] == "write" else "".join(args[0])
                 if not any(c in f[1].mode for c in "wax+"):
                     raise PyRaise("UnsupportedOperation", node)
+                if getattr(f[1], "notrunc", False):
+                    vfs.write(f[1].path, data, f"r+@{f[1].pos}", node)
+                    f[1].pos += len(data)
+                    return len(data)
                 first = not getattr(f[1], "written", False)
                 vfs.write(f[1].path, data, ("w" if first and "a" not in f[1].mode else "a"), node)
                 f[1].written = True
@@ -335,6 +347,44 @@ def fs_hook(vfs: VFS):
                 return vfs.cwd
             if name in ("os.fspath",):
                 return sval(args[0])
+            if name == "os.open":
+                flags = args[1] if len(args) > 1 else kwargs.get("flags", 0)
+                if not isinstance(flags, int):
+                    raise Unknown("os.open with symbolic flags")
+                import os as _os
+                pth = sval(args[0])
+                exists = vfs.is_file(pth)
+                if flags & _os.O_EXCL and flags & _os.O_CREAT and exists:
+                    raise PyRaise("FileExistsError", node)
+                if not exists and not flags & _os.O_CREAT:
+                    raise PyRaise("FileNotFoundError", node)
+                acc = flags & (_os.O_WRONLY | _os.O_RDWR)
+                fv = FileV(pth, "r+" if acc else "r", None, None)
+                fv.notrunc = True
+                if not exists:
+                    vfs.write(pth, "", "w", node)
+                elif flags & _os.O_TRUNC and acc:
+                    vfs.write(pth, "", "w", node)
+                if flags & _os.O_APPEND:
+                    fv.notrunc = False
+                    fv.mode = "a"
+                    fv.written = True
+                return fv
+            if name == "os.fdopen" and args and isinstance(args[0], FileV):
+                return args[0]
+            if name == "os.write" and len(args) == 2 and isinstance(args[0], FileV):
+                data = args[1].decode("utf-8", "replace") if isinstance(args[1], bytes) else args[1]
+                if args[0].notrunc if hasattr(args[0], "notrunc") else False:
+                    vfs.write(args[0].path, data, f"r+@{args[0].pos}", node)
+                    args[0].pos += len(data)
+                else:
+                    vfs.write(args[0].path, data, "a", node)
+                return len(args[1])
+            if name in ("os.close", "os.fsync", "os.ftruncate") and args and isinstance(args[0], FileV):
+                if name == "os.ftruncate":
+                    cur = vfs.texts.get(vfs.abs(args[0].path), "")
+                    vfs.write(args[0].path, cur[:args[1]], "w", node)
+                return None
             if name in ("os.mkdir", "os.makedirs"):
                 vfs.mkdir(sval(args[0]), name == "os.makedirs", bool(kwargs.get("exist_ok", False)), node)
                 return None
